@@ -436,6 +436,25 @@ func (g *vfGen) genC14() {
 		g.emit(vfOp("xlookup", sc, []byte("no/such-type")))
 	}
 	g.emit(vfOp("xwalk", "~", []byte("plain"), 0))
+	// chains of extensions, each registered below the previous one, deeper than any built-in path
+	for _, depth := range []int{3, 7, 8, 9, 10, 12, 17, 40, 130} {
+		for _, pred := range []string{"always", "prefix-" + vfHex([]byte("[Unit]")), "lenGt-3"} {
+			var calls []string
+			path := "r"
+			for d := 0; d < depth; d++ {
+				calls = append(calls, fmt.Sprintf("%s:%s:%s:%s:~", path, pred, vfHex([]byte(fmt.Sprintf("application/x-chain-%d", d))), vfHex([]byte(".c"))))
+				if d == 0 {
+					path = "0"
+				} else {
+					path += ".0"
+				}
+			}
+			sc := strings.Join(calls, ";")
+			g.emit(vfOp("xwalk", sc, []byte("[Unit]\nDescription=x\n"), 0))
+			g.emit(vfOp("xwalk", sc, []byte("ab"), 0))
+			g.emit(vfOp("xlookup", sc, []byte(fmt.Sprintf("application/x-chain-%d", depth-1))))
+		}
+	}
 	// names are registered and looked up verbatim: upper case, parameters, surrounding blanks
 	for _, parent := range []string{"r", "0"} {
 		for _, nm := range []string{"text/x-Systemd-Unit", "Application/X-Upper", " text/x-lead", "text/x-trail ", "TEXT/X-ALLCAPS"} {
